@@ -153,6 +153,24 @@ def documents(pm: ProgramModel, mb: ModelBuilder) -> dict[str, list[tuple[str, A
     docs["XMLReader"].append(("third-party/plain", c09.fama_doc(ref9).encode("utf8"), ref9))
     docs["XMLReader"].append(("third-party/extras+cardinality-last",
                               c09.fama_doc(ref9, extra=True, card_after=True).encode("utf8"), ref9))
+    # larger documents from the reference emitters (twelve siblings / members, two-digit bounds, twelve levels, thirteen
+    # constraints with six-operand chains, long names)
+    from ..codec import large_models
+    roots = lambda m_: [c._f["_ast"]._f["root"] for c in m_._f["ctcs"]]  # noqa: E731
+    for key, m_, _w, _o in large_models(mb, ("AND", "OR", "IMPLIES", "EQUIVALENCE")):
+        docs["UVLReader"].append((f"reference/large-{key}", c04.RefEmitter().emit(m_), m_))
+        docs["JSONReader"].append((f"written/large-{key}", written("JSONWriter", m_), m_))
+    for key, m_, _w, _o in large_models(mb, ("AND", "OR", "IMPLIES", "EQUIVALENCE"), mixed=False, cardinal=False):
+        docs["FeatureIDEReader"].append((f"third-party/large-{key}", c09.fide_doc(
+            m_, False, False, False, rules=[c09.fide_rule(t) for t in roots(m_)]).encode("utf8"), m_))
+    for key, m_, _w, _o in large_models(mb, ("AND", "OR", "IMPLIES", "EQUIVALENCE", "EXCLUDES"), mixed=False):
+        docs["GlencoeReader"].append((f"third-party/large-{key}", json.dumps(c09.glencoe_doc(m_, trees=roots(m_))), m_))
+    for key, m_, _w, _o in large_models(mb, ("AND", "OR", "IMPLIES", "EQUIVALENCE", "REQUIRES", "EXCLUDES"),
+                                        rename=lambda s_: (s_[0].upper() + s_[1:]).replace("_", "")):
+        docs["AFMReader"].append((f"third-party/large-{key}", c09.afm_doc(m_), m_))
+    for key, m_, _w, _o in large_models(mb, ("REQUIRES", "EXCLUDES")):
+        m_._f["ctcs"] = []
+        docs["XMLReader"].append((f"third-party/large-{key}", c09.fama_doc(m_, ctc_lines=[]).encode("utf8"), None))
     return docs
 
 
